@@ -52,6 +52,7 @@ type modelCheck struct {
 	extra    func(mc *modelCheck, mr *modelRun, h sim.History, res *engine.Result) []refmodel.Finding
 	guards   func(a *engine.Agg) []string
 	evmSum   bool // add the EVM total-value cases (C02)
+	nShared  int  // the first nShared families are the shared ones (no default restarts)
 
 	tier  string
 	cases []mcase
@@ -63,6 +64,7 @@ func (c *modelCheck) ID() string        { return c.id }
 func (c *modelCheck) Meta() engine.Meta { return c.meta }
 
 func (c *modelCheck) build() {
+	c.nShared = len(sharedFamilies())
 	c.slots = nil
 	c.bases = nil
 	for _, f := range c.families {
@@ -123,7 +125,17 @@ func (c *modelCheck) Prepare(tier string, seed int64) error {
 		}
 		for i := range sets {
 			c.cases = append(c.cases, mcase{Fam: fi, Devs: sets[i], Lv: lv[i]})
-			for _, r := range f.Restarts {
+			restarts := f.Restarts
+			if restarts == nil && fi >= c.nShared {
+				// every property-specific family is also run with one restart (copy of the data directory, new application)
+				// at three boundaries: rules that read in-memory state must give the same results after a restart
+				restarts = []int64{3, 5, 7}
+			}
+			if f.Restarts == nil && tier != "thorough" && len(restarts) > 0 {
+				// quick: one of the three boundaries per history, rotating (thorough: all three)
+				restarts = restarts[i%len(restarts) : i%len(restarts)+1]
+			}
+			for _, r := range restarts {
 				if lv[i] <= 1 {
 					c.cases = append(c.cases, mcase{Fam: fi, Devs: sets[i], Restart: r, Lv: lv[i]})
 				}
@@ -274,7 +286,7 @@ func modelMeta(technique, rule string, extraAssume ...string) engine.Meta {
 		LevelName: "number of deviations from the family's default history",
 		Technique: technique,
 		Rule: rule + " Every history is executed on the real application in lock step with the result-conditioned reference model (mc/refmodel): a failed transaction does not move the model, a successful one has the property's necessary conditions asserted and its exact effect applied; block rules are computed by the model; after EVERY commit the complete committed state (all accounts, delegatees+stakes, unbonding stakes, rewards, proposals+votes, parameters) is compared and every mismatch is attributed to the property owning the component. " +
-			"All checks also run the shared families (dense history in 3 genesis variants + the small-stake/evidence/jailing history, every single deviation from a 24-template menu at every position, per-block absent-signer / evidence / proposer variations). distinct_nontrivial = histories with at least one successful and one failed transaction.",
+			"Every property-specific family is additionally executed with one restart of the node after height 3, 5 or 7 (deviation level <= 1; quick: one of the three boundaries per history, rotating; thorough: each of them). All checks also run the shared families (dense history in 3 genesis variants + the small-stake/evidence/jailing history, every single deviation from a 24-template menu at every position, per-block absent-signer / evidence / proposer variations). distinct_nontrivial = histories with at least one successful and one failed transaction.",
 		Assumptions: append([]string{
 			"the model does not predict acceptance beyond the necessary conditions the properties state (no re-implementation of the stake limiter or the EVM gas schedule)",
 			"the validator set last reported is taken over from the implementation after C10's oracle has judged it (tie-breaks at the cut are open)",
